@@ -24,6 +24,8 @@ func init() {
 		func(t *vcTrial) { vcRunC05(t, vc05Cfg{Network: "tcp", Handler: "panic", Actors: []string{"fin", "shutdown"}, OnConnect: true}) },
 		func(t *vcTrial) { vcRunC05(t, vc05Cfg{Network: "unix", Handler: "block", Actors: []string{"fin", "close", "input"}, Closers: 4}) },
 		func(t *vcTrial) { vcRunC05(t, vc05Cfg{Network: "tcp", Handler: "blockread", Actors: []string{"detach"}, Detach: true}) },
+		func(t *vcTrial) { vcRunC05PrepareClose(t, 1, "tcp") },
+		func(t *vcTrial) { vcRunC05PrepareClose(t, 3, "unix") },
 	}
 }
 
@@ -183,6 +185,10 @@ func vcScenC05(t *vcTrial) {
 	cfg.OnConnect = r.chance(30)
 	cfg.Detach = r.chance(8)
 	cfg.ClientNP = r.chance(15)
+	if r.chance(6) {
+		vcRunC05PrepareClose(t, r.rng(1, 3), []string{"tcp", "unix"}[r.intn(2)])
+		return
+	}
 	// actors besides the handler
 	pool := []string{"fin", "rst", "input", "shutdown"}
 	for _, a := range pool {
@@ -618,4 +624,68 @@ func vcRunC05Client(t *vcTrial, cfg vc05Cfg) {
 	evs := vcTraceSince(mark)
 	sig, nt := vc05Signature(evs, rec.ID, vc05Cfg{Handler: "client"}, t.Plan)
 	t.Sig, t.Nontrivial = sig, nt || (peerCloses && nclose > 0)
+}
+
+// vcRunC05PrepareClose: the user closes the connection inside OnPrepare (before it is registered
+// with the poller): no handler can ever run for it, so by the time the accept path is through,
+// the close callbacks must have run exactly once and the descriptor must be closed exactly once.
+func vcRunC05PrepareClose(t *vcTrial, closes int, network string) {
+	t.P("variant", "close-in-OnPrepare")
+	t.P("closes", closes)
+	audit := vcStartAudit()
+	var opPtr uintptr
+	var ownedSeq uint64
+	so := vcSrvOpts{Network: network, NCloseCb: 3}
+	so.OnPrepare = func(rec *vcConnRec) {
+		opPtr = vcObjID(vcInner(rec.Conn).operator)
+		ownedSeq = vfNextSeq()
+		for i := 0; i < closes; i++ {
+			rec.Conn.Close()
+		}
+	}
+	so.OnRequest = func(ctx context.Context, rec *vcConnRec) error {
+		rec.Conn.Reader().Skip(rec.Conn.Reader().Len())
+		return nil
+	}
+	srv, err := vcStartServer(so)
+	if err != nil {
+		t.Inconclusive("server start: %v", err)
+		return
+	}
+	defer srv.Stop(3 * time.Second)
+	cli, err := vcDialRaw(srv)
+	if err != nil {
+		t.Inconclusive("dial: %v", err)
+		return
+	}
+	defer cli.Close()
+	cli.Write([]byte("request-for-a-refused-connection"))
+	rec := srv.nextAccepted(5 * time.Second) // returns after the accept path finished with the connection
+	if rec == nil {
+		t.Inconclusive("accept not seen")
+		return
+	}
+	time.Sleep(500 * time.Microsecond)
+	if !rec.waitClosed(2 * time.Second) {
+		t.Violate("C05", "never_torn_down", "Close() was called %d time(s) inside OnPrepare and returned; the connection was never registered, no handler can run for it, yet its close callbacks did not run (history %v)", closes, rec.history())
+		return
+	}
+	if msg := rec.checkCloseCallbacks(); msg != "" {
+		t.Violate("C05", "close_callbacks", "close inside OnPrepare: %s (history %v)", msg, rec.history())
+	}
+	// the peer must see the end of the connection
+	cli.SetReadDeadline(time.Now().Add(3 * time.Second))
+	buf := make([]byte, 16)
+	if n, err := cli.Read(buf); err == nil || n > 0 {
+		t.Violate("C05", "descriptor_closes", "the connection was closed inside OnPrepare but its peer still reads data / no end-of-stream (n=%d err=%v)", n, err)
+	} else if ne, ok := err.(net.Error); ok && ne.Timeout() {
+		t.Violate("C05", "descriptor_closes", "the connection was closed inside OnPrepare but its descriptor is still open 3s later (the peer sees no end-of-stream)")
+	}
+	if closesSeen := audit.closesOf(rec.ID); len(closesSeen) != 1 && !t.Violated() {
+		t.Violate("C05", "descriptor_closes", "close inside OnPrepare: descriptor closed %d time(s), want 1", len(closesSeen))
+	}
+	if n := audit.freeablesOf(opPtr, ownedSeq); n != 1 && !t.Violated() {
+		t.Violate("C05", "registration_release", "close inside OnPrepare: poller slot released %d time(s), want 1", n)
+	}
+	t.Nontrivial, t.Sig = true, fmt.Sprintf("prepare-close|%s|k=%d", network, closes)
 }
